@@ -585,12 +585,6 @@ def _number_period_glue(ctx):
 RULES = [
     ("number-literal-next-to-period", _number_period_glue),
     ("datatype:custom-modifier-quotes", _custom_with_modifiers),
-    ("ShowVariable:non-word-tokens-skipped", _show_variable),
-    ("ShowVariable:keyword-consumed-before-guard", _show_variable_kw),
-    ("ColumnOption:keyword-consumed-before-guard", _column_option_kw),
-    ("AlterTable:drop-projection-consumed-before-guard", _drop_projection_kw),
-    ("AlterTable:add-if-not-exists-dropped", _add_if_not_exists_kw),
-    ("CreateTable:local-and-global", _local_global_kw),
     ("CreateFunction:empty-arglist", _create_function_noargs),
     ("CreateFunction:body-requoted", _create_function_body),
     ("Declare:mssql-multiple", _mssql_declare_multi),
@@ -600,8 +594,6 @@ RULES = [
     ("bigquery:quoted-path-split", _bigquery_path_split),
     ("parse_literal_uint:normalised", _uint_normalised),
     ("OperateFunctionArg:qualified-name-truncated", _function_arg_name),
-    ("TableFactor:version-before-alias", _version_alias),
-    ("CreateTable:snowflake-clone-like-without-name", _snowflake_dangling),
     ("redshift:bracket-subscript-vs-delimited-identifier", _redshift_bracket),
 ]
 # rules that compute their key (site-dependent)
